@@ -14,6 +14,14 @@ import sysconfig
 import tempfile
 import time
 
+# the extracted models recurse structurally over byte lists: give child processes (driver, coqc) the full stack
+try:
+    import resource
+    _soft, _hard = resource.getrlimit(resource.RLIMIT_STACK)
+    resource.setrlimit(resource.RLIMIT_STACK, (_hard, _hard))
+except Exception:
+    pass
+
 VERIF = os.path.dirname(os.path.dirname(os.path.dirname(os.path.abspath(__file__))))
 REPO = os.environ.get("VERIF_REPO", "/repo")
 COQ = os.path.join(VERIF, "coq")
